@@ -185,9 +185,7 @@ class yanny(OrderedDict):
     def trailing_comment(line):
         """Identify a trailing comment and strip it.
 
-        This routine works on the theory that a properly quoted comment mark
-        will be surrounted by an odd number of double quotes, & we can
-        skip to searching for the last one in the line.
+        A comment mark inside a double-quoted string is not a comment.
 
         Parameters
         ----------
@@ -202,13 +200,9 @@ class yanny(OrderedDict):
 
         Notes
         -----
-        This may fail in certain pathological cases, for example if a
-        real trailing comment contains a single double-quote::
+        Comments may themselves contain comment marks or double quotes::
 
             # a 'pathological" trailing comment
-
-        or if someone is over-enthusiastically commenting::
-
             # # # # # I like # characters.
 
         Examples
@@ -219,16 +213,19 @@ class yanny(OrderedDict):
         >>> yanny.trailing_comment('mystruct 1234 "#hashtag" # a "comment".')
         'mystruct 1234 "#hashtag"'
         """
-        lastmark = line.rfind('#')
-        if lastmark >= 0:
-            #
-            # Count the number of double quotes in the remainder of the line
-            #
-            if (len([c for c in line[lastmark:] if c == '"']) % 2) == 0:
-                #
-                # Even number of quotes
-                #
-                return line[0:lastmark].rstrip()
+        #
+        # Scan from the left, skipping over double-quoted strings; the
+        # first comment mark outside quotes starts the comment.
+        #
+        i = 0
+        while i < len(line):
+            if line[i] == '"':
+                j = line.find('"', i + 1)
+                if j >= 0:
+                    i = j
+            elif line[i] == '#':
+                return line[0:i].rstrip()
+            i += 1
         return line
 
     @staticmethod
